@@ -263,7 +263,7 @@ def ocaml_build(name, gen_modules, extra=(), timeout=600):
     """Compile ocaml/<name>.ml with the extracted modules ocaml/gen/<m>.ml(i) into build/<name>.
     The compilation happens in a private directory so that concurrent checks do not disturb each other."""
     os.makedirs(BUILD, exist_ok=True)
-    work = os.path.join(BUILD, name + ".d")
+    work = os.path.join(BUILD, "%s.d.%d" % (name, os.getpid()))   # private per process: concurrent checks do not collide
     sh("rm -rf %s && mkdir -p %s" % (work, work))
     files = []
     for m in gen_modules:
@@ -278,6 +278,7 @@ def ocaml_build(name, gen_modules, extra=(), timeout=600):
     rc, out = sh(cmd, cwd=work, timeout=timeout)
     if rc == 0:
         os.replace(tmp_exe, exe)
+    sh("rm -rf %s" % work)
     return rc, out, exe
 
 
